@@ -39,6 +39,15 @@ Theorem C01_div_rem_exact : forall i a b q r,
   a = b * q + r /\ Z.abs r < Z.abs b /\ (0 <= a -> 0 <= r) /\ (a <= 0 -> r <= 0).
 Proof. exact div_rem_exact. Qed.
 
+(* a checked +, -, * on operands in the range of the type that does not panic returns a result in
+   the range (so integers stay in range along a run: range preservation is proved for these three,
+   for negation and for try_into; for / % and the bitwise operators it is only explored) *)
+Theorem C01_checked_ops_in_range : forall i o a b v,
+  (o = Add \/ o = Sub \/ o = Mul) ->
+  in_range i a = true -> in_range i b = true ->
+  int_arith o i a b = OVal (VInt v) -> in_range i v = true.
+Proof. exact arith_in_range. Qed.
+
 (* fuel is only a device: a result other than "out of fuel" does not depend on the amount of
    fuel.  (Stated for every outcome: Value, Panic and Stuck.) *)
 Theorem C01_fuel_monotone : forall p f args n o,
@@ -102,6 +111,7 @@ Print Assumptions C01_panic_data_exact_sub.
 Print Assumptions C01_panic_data_exact_mul.
 Print Assumptions C01_panic_data_exact_div.
 Print Assumptions C01_div_rem_exact.
+Print Assumptions C01_checked_ops_in_range.
 Print Assumptions C01_fuel_monotone.
 Print Assumptions C01_ref_deterministic.
 Print Assumptions C01_ref_type_sound.
